@@ -585,3 +585,6 @@ def _safe_json(m):
 def replay(w):
     r = run_shard({"item": w["item"], "seed": 0, "n": 10})
     return r.violations
+
+
+RULE += ' The same operation history (copy, deepcopy, pickle, assignment of every field of a second value on the shallow and on the deep copy, in-place growth, decode onto a deep copy) must leave identical bytes and JSON on every object involved under every configuration. Extra sets include rare constructs (custom options via extend, reserved, json_name, import public), packages split over files with and without typing constructs, a module beyond 64 KiB.'
